@@ -430,7 +430,7 @@ PROPS = {
  "C04": {
   "modules": ["OsmoVerif.Props.C04", "OsmoVerif.Props.TieGenGammMath", "OsmoVerif.Props.C02C04", "OsmoVerif.Props.C04Real",
               "OsmoVerif.Props.C04Seq", "OsmoVerif.Props.C04Stable", "OsmoVerif.Props.C04Mid"],
-  "min_theorems": 181,
+  "min_theorems": 186,
   "fingerprints": ["GammMath.*", "Osmomath.Pow", "Osmomath.PowApprox", "Osmomath.AbsDifferenceWithSign", "Osmomath.BinarySearch*", "Osmomath.ErrTolerance_*"],
   "engines": [{"name": "gammmath", "kind": "pure", "n": {"quick": 6000, "thorough": 150000}, "shards": {"quick": 4, "thorough": 16}}],
   "rule": "in-memory balancer and stableswap pools (2-8 assets; reserves 1..10^30 balanced / strongly unbalanced / tiny; user weights 1..2^20-1, "
